@@ -1418,7 +1418,10 @@ class H2Connection:
         # RFC 7540 Section 6.5.2.
         if SettingCodes.HEADER_TABLE_SIZE in changes:
             setting = changes[SettingCodes.HEADER_TABLE_SIZE]
-            self.encoder.header_table_size = setting.new_value
+            # Setting the size it already has would make the encoder forget
+            # a size change it has not announced to the peer yet.
+            if setting.new_value != self.encoder.header_table_size:
+                self.encoder.header_table_size = setting.new_value
 
         if SettingCodes.MAX_FRAME_SIZE in changes:
             setting = changes[SettingCodes.MAX_FRAME_SIZE]
